@@ -255,6 +255,9 @@ func (p *Packet) Payload() ([]byte, error) {
 		return nil, gots.ErrNoPayload
 	}
 	offset := p.payloadStart()
+	if offset > PacketSize {
+		return nil, gots.ErrInvalidPacketLength
+	}
 	payload := make([]byte, PacketSize-offset)
 	copy(payload, p[offset:])
 	return payload, nil
